@@ -142,7 +142,10 @@ impl CpcUnion {
         match &self.state {
             UnionState::Accumulator(sketch) => {
                 if sketch.is_empty() {
-                    CpcSketch::with_seed(self.lg_k, self.seed)
+                    // the result of a union is marked as merged, also when nothing was merged
+                    let mut sketch = CpcSketch::with_seed(self.lg_k, self.seed);
+                    sketch.merge_flag = true;
+                    sketch
                 } else {
                     let mut sketch = sketch.clone();
                     assert_eq!(sketch.flavor(), Flavor::Sparse);
